@@ -1,26 +1,38 @@
 (* Properties_C17.v — C17: States and solvers have value semantics: copies and moves are fully usable.
-   Model: the dynamic type of a State's temporary_variables_ (what Solve() downcasts) under every
-   sequence of GetState / copy-construct / copy-assign / move-construct / move-assign / set / solve
-   operations over any number of State variables. *)
+   Model: the dynamic type of a State's temporary_variables_ (what Solve() downcasts) and the number of stage
+   vectors it holds (what the Rosenbrock stage loop indexes), under every sequence of GetState / copy-construct /
+   copy-assign / move-construct / move-assign / set / solve / solve-with-another-parameter-set operations over any
+   number of State variables. *)
 From Model Require Import Base ValueSem ValueSemProofs.
 Local Open Scope nat_scope.
 
-(* the repaired code (fix: c55c0fb): no sequence of operations, of any length, reaches undefined behaviour *)
+(* the repaired code (fix: c55c0fb, and the stage-vector fix): no sequence of operations, of any length, reaches
+   undefined behaviour, whatever the stage count of the solver's parameter set and of the sets handed to Solve *)
 Theorem C17_no_sequence_of_copies_moves_and_solves_is_undefined :
-  forall n (ops : list vop), ~ In TkUB (vrun copy_fixed (store0 n) ops).
-Proof. intros n ops. apply value_semantics_no_ub. apply wf_store0. Qed.
+  forall n stages (ops : list vop), ~ In TkUB (vrun copy_fixed true (store0 n stages) ops).
+Proof. intros n stages ops. apply value_semantics_no_ub. apply wf_store0. Qed.
 Print Assumptions C17_no_sequence_of_copies_moves_and_solves_is_undefined.
 
 (* a solve reads the data of its own State only *)
 Theorem C17_solve_reads_its_own_state :
-  forall st i, so_live (slot st i) = true -> wf st ->
-    snd (vstep copy_fixed st (OSolve i)) = TkSolve (so_data (slot st i)).
+  forall st stages i, so_live (slot st i) = true -> wf st ->
+    snd (vstep copy_fixed true (st, stages) (OSolve i)) = TkSolve (so_data (slot st i)).
 Proof. exact solve_reads_own_data. Qed.
 Print Assumptions C17_solve_reads_its_own_state.
 
-(* the code as it was before the repair: copying sliced the scratch object to its base class;
+(* the code as it was before the first repair: copying sliced the scratch object to its base class;
    GetState; copy; Solve(copy) reached undefined behaviour (replayed on the implementation under UBSan) *)
 Theorem C17_sliced_copy_refuted :
-  In TkUB (vrun copy_sliced (store0 4) [OGet 0; OCopyC 1 0; OSolve 1]).
+  In TkUB (vrun copy_sliced true (store0 4 3) [OGet 0; OCopyC 1 0; OSolve 1]).
 Proof. exact copy_then_solve_refuted. Qed.
 Print Assumptions C17_sliced_copy_refuted.
+
+(* the code as it was before the second repair: the stage loop indexed K[0..stages) of a State created for fewer
+   stages: GetState (three-stage solver); Solve(dt, state, six-stage parameters) overran the heap (replayed under ASan);
+   and, once the solver's set had been changed that way, so did the two-argument Solve of an older State *)
+Theorem C17_more_stages_than_stage_vectors_refuted :
+  In TkUB (vrun copy_fixed false (store0 4 3) [OGet 0; OPSolve 0 6]) /\
+  vrun copy_fixed false (store0 4 6) [OGet 1; OPSolve 1 2; OGet 0; OPSolve 1 6; OSolve 0]
+  = [TkGet; TkSolve 1; TkGet; TkSolve 1; TkUB].
+Proof. split; [exact more_stages_than_vectors_refuted | exact older_state_after_parameter_change_refuted]. Qed.
+Print Assumptions C17_more_stages_than_stage_vectors_refuted.
